@@ -90,8 +90,65 @@ func isRLE(kind string) bool {
 	return kind == "levels" || kind == "int32" || kind == "dict" || kind == "bool"
 }
 
-// goDecode runs the Go decoder of one kind on src.
-func goDecode(kind string, width int, src []byte) (res decRes) {
+// goDecode runs the Go decoder of one kind on src, into nil destinations.
+func goDecode(kind string, width int, src []byte) decRes {
+	return goDecodeInto(kind, width, src, false)
+}
+
+// dirty destinations: buffers that an earlier call filled (no zero in them),
+// handed back with a few elements of length and plenty of capacity, the way
+// the page readers reuse their pooled buffers
+func dirtyBytesDst() []byte {
+	b := make([]byte, 1<<15)
+	for i := range b {
+		b[i] = dirty[i] | 0x81
+	}
+	return b[:len(b)%7]
+}
+
+func dirtyInt32Dst() []int32 {
+	b := make([]int32, 1<<12)
+	for i := range b {
+		b[i] = int32(-12345 - i)
+	}
+	return b[:3]
+}
+
+func dirtyInt64Dst() []int64 {
+	b := make([]int64, 1<<12)
+	for i := range b {
+		b[i] = int64(-12345 - i)
+	}
+	return b[:3]
+}
+
+func dirtyOffsetsDst() []uint32 {
+	b := make([]uint32, 1<<12)
+	for i := range b {
+		b[i] = 0xA5A5A5A5
+	}
+	return b[:2]
+}
+
+// goDecodeInto runs the Go decoder of one kind on src, into nil destinations
+// or (dirtyDst) into reused ones.
+func goDecodeInto(kind string, width int, src []byte, dirtyDst bool) (res decRes) {
+	var bdst []byte
+	var i32dst []int32
+	var i64dst []int64
+	var odst []uint32
+	if dirtyDst {
+		switch kind {
+		case "int32", "dict", "dbp32":
+			i32dst = dirtyInt32Dst()
+		case "dbp64":
+			i64dst = dirtyInt64Dst()
+		case "dlba", "dba":
+			bdst, odst = dirtyBytesDst(), dirtyOffsetsDst()
+		default:
+			bdst = dirtyBytesDst()
+		}
+	}
 	defer func() {
 		if r := recover(); r != nil {
 			res = decRes{status: "panic", vals: fmt.Sprint(r)}
@@ -105,7 +162,7 @@ func goDecode(kind string, width int, src []byte) (res decRes) {
 	}
 	switch kind {
 	case "levels":
-		d, err := (&rle.Encoding{BitWidth: width}).DecodeLevels(nil, src)
+		d, err := (&rle.Encoding{BitWidth: width}).DecodeLevels(bdst, src)
 		return st(err, func() string {
 			us := make([]uint64, len(d))
 			for i, v := range d {
@@ -114,16 +171,16 @@ func goDecode(kind string, width int, src []byte) (res decRes) {
 			return uList(us)
 		})
 	case "int32":
-		d, err := (&rle.Encoding{BitWidth: width}).DecodeInt32(nil, src)
+		d, err := (&rle.Encoding{BitWidth: width}).DecodeInt32(i32dst, src)
 		return st(err, func() string { return u32List(d) })
 	case "dict":
-		d, err := (&rle.DictionaryEncoding{}).DecodeInt32(nil, src)
+		d, err := (&rle.DictionaryEncoding{}).DecodeInt32(i32dst, src)
 		return st(err, func() string { return u32List(d) })
 	case "bool":
-		d, err := (&rle.Encoding{BitWidth: 1}).DecodeBoolean(nil, src)
+		d, err := (&rle.Encoding{BitWidth: 1}).DecodeBoolean(bdst, src)
 		return st(err, func() string { return core.Hexs(d) })
 	case "dbp32":
-		d, err := (&delta.BinaryPackedEncoding{}).DecodeInt32(nil, src)
+		d, err := (&delta.BinaryPackedEncoding{}).DecodeInt32(i32dst, src)
 		return st(err, func() string {
 			vs := make([]int64, len(d))
 			for i, v := range d {
@@ -132,10 +189,10 @@ func goDecode(kind string, width int, src []byte) (res decRes) {
 			return zList(vs)
 		})
 	case "dbp64":
-		d, err := (&delta.BinaryPackedEncoding{}).DecodeInt64(nil, src)
+		d, err := (&delta.BinaryPackedEncoding{}).DecodeInt64(i64dst, src)
 		return st(err, func() string { return zList(d) })
 	case "dlba":
-		d, offs, err := (&delta.LengthByteArrayEncoding{}).DecodeByteArray(nil, src, nil)
+		d, offs, err := (&delta.LengthByteArrayEncoding{}).DecodeByteArray(bdst, src, odst)
 		return st(err, func() string {
 			us := make([]uint64, len(offs))
 			for i, v := range offs {
@@ -144,10 +201,10 @@ func goDecode(kind string, width int, src []byte) (res decRes) {
 			return core.Hexs(d) + " " + uList(us)
 		})
 	case "dba":
-		d, offs, err := (&delta.ByteArrayEncoding{}).DecodeByteArray(nil, src, nil)
+		d, offs, err := (&delta.ByteArrayEncoding{}).DecodeByteArray(bdst, src, odst)
 		return st(err, func() string { return safeUnflatten(d, offs) })
 	case "dba_flba":
-		d, err := (&delta.ByteArrayEncoding{}).DecodeFixedLenByteArray(nil, src, width)
+		d, err := (&delta.ByteArrayEncoding{}).DecodeFixedLenByteArray(bdst, src, width)
 		return st(err, func() string { return core.Hexs(d) })
 	}
 	panic("goDecode: kind " + kind)
@@ -315,6 +372,12 @@ func (k *checker) tieStream(kind string, width int, stream []byte, what string, 
 			stats.exOverread[kind] = fmt.Sprintf("width %d stream %s: cap=len gives %s, 64 spare bytes of 0xAA give %s", width, core.Hexs(stream), g, g2)
 		}
 	}
+	// what the reused destination buffers held must not change the outcome
+	if g3 := goDecodeInto(kind, width, exact(stream), true); g3 != g {
+		k.ok = false
+		c.Violation("dst-history-dependence", fmt.Sprintf("Go decoder %s (width %d), stream %s (%s): into nil destinations the result is %s, into reused destinations holding older data it is %s", kind, width, core.Trunc(core.Hexs(stream), 400), what, g, g3), rec)
+		return false
+	}
 	// (the specification decoders of the DELTA encodings are slow: every other stream in the quick tier)
 	stats.specTurn++
 	if !goBytes && specCost <= costLimit && specComparable(kind) && (isRLE(kind) || !c.Quick() || what == "replay" || stats.specTurn%2 == 0) {
@@ -404,6 +467,9 @@ func mutations(rng *rand.Rand, kind string, b []byte, full bool) [][]byte {
 		// a first value outside int32, bit widths at and above the width of the type
 		if p := blockStart(b); p > 0 && p < L {
 			_, n := binary.Varint(b[p:])
+			if n < 0 { // (no block: the bytes behind the header are values, not a varint)
+				n = 0
+			}
 			for _, md := range []int64{1<<40 + 5, -(1 << 35) - 3, 1<<31 + 1} {
 				out = append(out, append(append(append([]byte(nil), b[:p]...), binary.AppendVarint(nil, md)...), b[p+n:]...))
 			}
@@ -643,6 +709,11 @@ func (k *checker) checkForeign(fc *foreignCase) {
 				return
 			}
 		}
+	}
+	// what the reused destination buffers held must not change the outcome
+	if g3 := goDecodeInto(fc.Kind, fc.Width, exact(stream), true); g3 != g {
+		fail("dst-history-dependence", fmt.Sprintf("%s: into nil destinations Go returns %s, into reused destinations holding older data %s", desc, g, g3))
+		return
 	}
 	if !c.HasOracle() {
 		return
